@@ -147,6 +147,7 @@ func setString(m map[string]bool) string {
 func runC36(c *Ctx) {
 	lastExpiringCovers(c, "L1-last-expiring-covers")
 	keyIDAgreement(c, "K1-key-id-agreement")
+	gracePeriodEnd(c, "G4-grace-period-end")
 	gT :="(*private/trust.SignerGen)"
 	if v := c.View(gT + ".bestForKey"); v != nil {
 		fn := v.Fn
